@@ -170,7 +170,7 @@ func main() {
 					r.Text = []string{}
 				}
 				for _, l := range sections[fmt.Sprintf("d_s%d_8080", i)] {
-					if isSnippetLine(l, "abA*#") {
+					if isSnippetLine(l, "abA*#\"'\\") {
 						r.Lines = append(r.Lines, chars(strings.TrimPrefix(l, "    ")))
 					}
 				}
@@ -213,7 +213,7 @@ func main() {
 					}
 					continue
 				}
-				if cur == "d_sg_8080" && isSnippetLine(l, "abA*#") {
+				if cur == "d_sg_8080" && isSnippetLine(l, "abA*#\"'\\") {
 					r.Lines = append(r.Lines, chars(strings.TrimPrefix(l, "    ")))
 				}
 			}
